@@ -17,7 +17,7 @@ func init() {
 		ID:    "C13",
 		Title: "A trace is stored, returned and sampled as a whole",
 		Decides: "sampling fails open: a sampler verdict is used only when Decide returned no error and a mask of the right length, Decide runs under a recover in the chain, and every verdict the merge chain returns on timeout / open circuit / error is the retain-all verdict (or exactly what the worker produced); " +
-			"the secondary indexes are pruned with the keep predicate of the very drop set the core merge produced in the same attempt, released only when the attempt ends; a guarded merge is published only when its revalidation still says Publish, otherwise nothing is committed; the evaluation stager's budget flushes (flushBefore / flushAfter) are unreachable while the next block continues the trace staged last; the trace-id primary-block search starts at the block that may hold the head of the trace (predicate: id <= first id; result n-1).",
+			"the secondary indexes are pruned with the keep predicate of the very drop set the core merge produced in the same attempt, released only when the attempt ends; a guarded merge is published only when its revalidation still says Publish, otherwise nothing is committed; the evaluation stager's budget flushes (flushBefore / flushAfter) are unreachable while the next block continues the trace staged last; the trace-id primary-block search starts at the block that may hold the head of the trace (predicate: id <= first id; result n-1).; the drop set's insertion and lookup step their open-addressing probe cursor the same way (both wrap)",
 		NotDecided: "which traces a sampler selects, whether fragments exist elsewhere (guard precision), how mergeBlocks stages a trace across blocks beyond the two boundary guards decided here, completeness of query-by-trace-id beyond the start of the primary-block search.",
 		Technique:  "guarded-return on resolved error/length tests, defining-instruction analysis of returned verdicts, SSA binding identity of the keep closure, world pruning on the Publish flag; relational world pruning on trace-id equality; truth table of the binary-search predicate",
 		Run:        runC13,
@@ -292,6 +292,65 @@ func runC13(c *core.Ctx) {
 			}
 		}
 		r.Floor(rule, 2)
+	}
+	// the drop set is an open-addressing table: insertion (buildIndex) and lookup (keepEncoded) walk the SAME probe
+	// sequence — both cursors step (i+1) masked / modulo the table, or neither does
+	{
+		rule := "c13.dropset-probe-agreement"
+		shape := func(f *ssa.Function) (string, string) {
+			// the cursor: a loop-header phi used as the index into the slots field
+			for _, b := range f.Blocks {
+				for _, in := range b.Instrs {
+					ia, ok := in.(*ssa.IndexAddr)
+					if !ok {
+						continue
+					}
+					p, ok := ia.Index.(*ssa.Phi)
+					if !ok || !isLoopHeader(p.Block()) || !flowsFromFieldNamed(ia.X, "slots", 0) && !strings.Contains(ssax.Path(ia.X), "slots") {
+						continue
+					}
+					for j, e := range p.Edges {
+						if !p.Block().Dominates(p.Block().Preds[j]) {
+							continue // not the back edge
+						}
+						bo, ok := e.(*ssa.BinOp)
+						if !ok {
+							return "other", r.pos(in)
+						}
+						isInc := func(v ssa.Value) bool {
+							a, ok := v.(*ssa.BinOp)
+							if !ok || a.Op != token.ADD {
+								return false
+							}
+							k, isK := a.Y.(*ssa.Const)
+							return a.X == ssa.Value(p) && isK && k.Value != nil && k.Value.ExactString() == "1"
+						}
+						switch {
+						case (bo.Op == token.AND || bo.Op == token.REM) && isInc(bo.X):
+							return "wrapping (i+1) " + bo.Op.String() + " m", r.pos(in)
+						case isInc(bo):
+							return "linear i+1", r.pos(in)
+						}
+						return "other", r.pos(in)
+					}
+				}
+			}
+			return "", ""
+		}
+		fi, fl := r.fn(rule, sibT.pkg, "(*droppedTraceIDs).buildIndex"), r.fn(rule, sibT.pkg, "(*droppedTraceIDs).keepEncoded")
+		if fi != nil && fl != nil {
+			si, pi := shape(fi)
+			sl, pl := shape(fl)
+			construct := "droppedTraceIDs: buildIndex and keepEncoded step their probe cursor the same way"
+			switch {
+			case si == "" || sl == "":
+				r.Undecide(rule, construct, r.fpos(fl), "probe cursor over the slots table not found in one of the two functions")
+			case si != sl:
+				r.Violate(rule, construct, pl, fmt.Sprintf("insertion steps %s (%s) but lookup steps %s (%s): an id displaced past the end of the table by insertion is never found by the lookup, so the core merge drops the trace while the secondary-index merge keeps its entries", si, pi, sl, pl))
+			default:
+				r.Hold(rule, construct, pl, si)
+			}
+		}
 	}
 	// point lookups by trace id start at the primary block that may hold the head of the trace (shared with C08)
 	r.pbmSearchInclusive("c13.pbm-search-inclusive", sibT.pkg)
